@@ -121,11 +121,12 @@ def session_reader(case):
                 for r in fr:
                     ent = [str(x) for x in r["ids"]] if shift else [f"{x:.3f}" for x in r["ids"]]
                     f.write(" ".join([str(r["id"]), str(r["cn"])] + ent) + "\n")
-        sess = [{"op": "open", "file": case["file"], "shift": shift, "n": 3}]
+        n = case.get("n", 3)
+        sess = [{"op": "open", "file": case["file"], "shift": shift, "n": n}]
         try:
             with open(fn) as fh:
                 for nmax in case["nmaxs"]:
-                    res = read_neighbors(fh, 3, Nmax=nmax)
+                    res = read_neighbors(fh, n, Nmax=nmax)
                     m = matrix_to_ints(res)
                     want = "int32" if shift else "float64"
                     if m is None or str(np.asarray(res).dtype) != want:
@@ -193,6 +194,59 @@ def gen_configs(rng, n):
         ops = [{"kind": "nn", "n": rng.randint(1, N - 2)}, {"kind": "nn", "n": min(N - 2, 12)},
                {"kind": "cut", "rn": rng.randint(lmin // 5, (3 * lmin) // 5)},
                {"kind": "cuttype", "R": R}]
+        out.append({"cfg": cfg, "ops": ops})
+    return out
+
+
+def gen_big_files(rng, k):
+    """Direction B for the reader at scale: files written in the library format with 70-140 particles whose coordination
+    numbers reach far beyond the usual ones (a few rows with 65..n-1 entries among rows with 0..12, so the widest row comes
+    after narrower ones and the padded width is decided late), read on one handle with Nmax below, at and above the largest
+    coordination number (incl. 64 / 65 / 128 / 200)."""
+    out = []
+    for _ in range(k):
+        n = rng.randint(70, 140)
+        shift = rng.randint(0, 1)
+        nf = rng.randint(1, 3)
+        file = []
+        for _f in range(nf):
+            fr = []
+            big = set(rng.sample(range(2, n + 1), rng.randint(0, 3)))
+            for i in range(1, n + 1):
+                cn = rng.randint(65, n - 1) if i in big else (0 if rng.random() < 0.1 else rng.randint(1, 12))
+                others = [j for j in range(1, n + 1) if j != i]
+                ids = rng.sample(others, cn) if shift else [rng.randint(1, 9999) for _ in range(cn)]
+                fr.append({"id": i, "cn": cn, "ids": ids})
+            file.append(fr)
+        nmaxs = [rng.choice([5, 30, 64, 65, 80, 128, 200]) for _ in range(nf)]
+        out.append({"file": file, "shift": shift, "nmaxs": nmaxs, "n": n})
+    return out
+
+
+def gen_dense(rng, k):
+    """Direction B for the writers at scale: a dense blob (60-110 particles within a few cut-off radii) next to a dilute
+    remainder, so that cut-off lists hold 60-100 neighbours (beyond 64) while other particles have none."""
+    out = []
+    for _ in range(k):
+        d = rng.choice([2, 3])
+        S = 100 if d == 2 else 10            # 3-D: the exact fractional coordinates (v Adj(H)) must stay within 32 bits
+        u = S // 10
+        L = rng.randint(300, 500) * u
+        H = [[L if i == j else 0 for j in range(d)] for i in range(d)]
+        nb = rng.randint(70, 110)
+        pts = set()
+        while len(pts) < nb:
+            pts.add(tuple(rng.randint(L // 2 - 15 * u, L // 2 + 15 * u) for _ in range(d)))
+        while len(pts) < nb + 25:
+            pts.add(tuple(rng.randint(0, L - 1) for _ in range(d)))
+        pts = [list(p) for p in pts]
+        rng.shuffle(pts)
+        N = len(pts)
+        K = 2
+        types = [1, 2] + [rng.randint(1, 2) for _ in range(N - 2)]
+        cfg = {"H": H, "ppp": [1] * d, "S": S, "types": types, "frames": [pts], "sharp": 0, "id": 200000 + len(out)}
+        ops = [{"kind": "cut", "rn": rng.randint(38, 52) * u}, {"kind": "nn", "n": rng.randint(66, 90)},
+               {"kind": "cuttype", "R": [[rng.randint(35, 50) * u, rng.randint(20, 50) * u], [rng.randint(20, 50) * u, rng.randint(35, 50) * u]]}]
         out.append({"cfg": cfg, "ops": ops})
     return out
 
@@ -271,6 +325,9 @@ def run(tier, replay=None):
         cases += cs
     rng = random.Random(common.SEED * 7919 + 5)
     cases += gen_configs(rng, 16 if tier == "quick" else 300)
+    # scale: coordination numbers beyond 64 / 128 (size-dependent code paths), in files and from the writers
+    cases += gen_big_files(rng, 6 if tier == "quick" else 60)
+    cases += gen_dense(rng, 2 if tier == "quick" else 16)
     results = common.pmap(run_case, cases, chunksize=4)
     sessions = []
     for sess, viol in results:
